@@ -104,10 +104,70 @@ class HDict(dict):
                 dict.__setitem__(self, ck, v)
                 return
         it.note_write(self, None, "dict")
+        if self.base_term is not None and getattr(self, 'fresh_check', None) is not None:
+            # the opaque prefix may already hold this key (then Python overwrites in place instead of appending):
+            # the contract that introduced the prefix states why the key is new
+            self.fresh_check(it, k)
         self.sym.append([k, v])
 
     def total(self):
         return dict.__len__(self) + len(self.sym) + (1 if self.base_term is not None else 0)
+
+
+class FMap:
+    """a dict with string keys of unbounded number, for loop invariants over maps that are built per item:
+    `has` : Array(PyStr, Bool) says which keys are present; the values are lists of len(cols) integers,
+    column j being Array(PyStr, Int).  (Representation invariant declared by the contract that introduces it.)"""
+
+    def __init__(self, has, cols):
+        self.has = has
+        self.cols = list(cols)
+
+    def contains(self, key):
+        return simp(z3.Select(self.has, str_term(key)))
+
+    def getitem(self, it, key):
+        if not (is_str(key) or isinstance(key, Choice)):
+            raise Unsupported("FMap key of type %s" % type(key).__name__)
+        if not it.ctx.decide(self.contains(key)):
+            raise_py(KeyError, key)
+        return FSlot(self, str_term(key))
+
+    def setitem(self, it, key, value):
+        if not (is_str(key) or isinstance(key, Choice)):
+            raise Unsupported("FMap key of type %s" % type(key).__name__)
+        if isinstance(value, FSlot):
+            value = [z3.Select(c, value.key) for c in value.m.cols]
+        if not (isinstance(value, list) and len(value) == len(self.cols) and all(is_intlike(v) for v in value)):
+            raise Unsupported("FMap value is not a list of %d integers" % len(self.cols))
+        it.note_write(self, None, "dict")
+        k = str_term(key)
+        self.has = z3.Store(self.has, k, z3.BoolVal(True))
+        self.cols = [z3.Store(c, k, zint(v)) for c, v in zip(self.cols, value)]
+
+
+class FSlot:
+    """the list stored under one key of an FMap (a view: item assignment writes through)"""
+
+    def __init__(self, m, key):
+        self.m = m
+        self.key = key
+
+    def getitem(self, it, j):
+        if not isinstance(j, int):
+            raise Unsupported("FMap value indexed by a symbolic index")
+        if not -len(self.m.cols) <= j < len(self.m.cols):
+            raise_py(IndexError, "list index out of range")
+        return simp(z3.Select(self.m.cols[j], self.key))
+
+    def setitem(self, it, j, v):
+        if not isinstance(j, int) or not is_intlike(v):
+            raise Unsupported("FMap value store with symbolic index / non-integer value")
+        if not -len(self.m.cols) <= j < len(self.m.cols):
+            raise_py(IndexError, "list assignment index out of range")
+        it.note_write(self.m, None, "dict value")
+        j %= len(self.m.cols)
+        self.m.cols[j] = z3.Store(self.m.cols[j], self.key, zint(v))
 
 
 class Handle:
